@@ -399,19 +399,23 @@ structure Started where
   ignored : Bool
 deriving Repr, Inhabited
 
-/-- `actualCall(functionName)` up to and including `withName` -/
+/-- the rest of `actualCall(functionName)` once the previous call is finished and deleted: the
+    disabled / ignored routing, else `createActualCall` and `withName(scopeFunctionName)` -/
+def Scope.startCall (sc2 : Scope) (full : String) : Started :=
+  if !sc2.enabled then { sc := sc2, fail := none, ignored := true }
+  else if sc2.ioc && !(sc2.es.any (fun e => e.name == full)) then
+    { sc := sc2, fail := none, ignored := true }
+  else
+    let order := sc2.actualOrder + 1
+    let cs := withName { es := beginCall sc2.es, call := newCall order, fail := none } full
+    { sc := { sc2 with es := cs.es, actualOrder := order, last := some cs.call }, fail := cs.fail, ignored := false }
+
+/-- `actualCall(functionName)` up to and including `withName`: the scoped name is computed first,
+    the call in flight is finished (`checkExpectations`) and deleted, then the new call starts -/
 def Scope.actualCall (sc : Scope) (fn : String) : Started :=
   match sc.checkLast with
   | (sc1, some f) => { sc := sc1, fail := some f, ignored := false }
-  | (sc1, none) =>
-    let sc2 := { sc1 with last := none }
-    if !sc2.enabled then { sc := sc2, fail := none, ignored := true }
-    else if sc2.ioc && !(sc2.es.any (fun e => e.name == sc2.fullName fn)) then
-      { sc := sc2, fail := none, ignored := true }
-    else
-      let order := sc2.actualOrder + 1
-      let cs := withName { es := beginCall sc2.es, call := newCall order, fail := none } (sc2.fullName fn)
-      { sc := { sc2 with es := cs.es, actualOrder := order, last := some cs.call }, fail := cs.fail, ignored := false }
+  | (sc1, none) => Scope.startCall { sc1 with last := none } (sc.fullName fn)
 
 /-- apply one step of the call in flight -/
 def Scope.seg (sc : Scope) (buf : List UInt8) (s : Seg) : Scope × Option String :=
